@@ -5,54 +5,55 @@ import H2V.Lemmas.ConnCountsPEarly
 -/
 namespace H2V.Lemmas.ConnCountsP
 open H2V H2V.Model H2V.Model.Conn
+variable {ρ : Bool}
 attribute [local irreducible] wrapSubU32 wrapSubUsize
 
-theorem resetOnRecvStreamErr_ev (s : Streams) (id : Nat) (res : Except PErr Unit) : Ev s (s.resetOnRecvStreamErr id res).1 := by
+theorem resetOnRecvStreamErr_ev (s : Streams) (id : Nat) (res : Except PErr Unit) : EvB ρ s (s.resetOnRecvStreamErr id res).1 := by
   unfold Streams.resetOnRecvStreamErr
   ev_auto
 
 theorem actionsSendReset_ev (s : Streams) (id : Nat) (reason : Reason) (init : Initiator) :
-    Ev s (s.actionsSendReset id reason init).1 := by
+    EvB ρ s (s.actionsSendReset id reason init).1 := by
   unfold Streams.actionsSendReset
   ev_auto
 
 theorem recvData_ev (s : Streams) (id : Nat) (payload : Bytes) (eos : Bool) (pad : Option Nat) :
-    Ev s (s.recvData id payload eos pad).1 := by
+    EvB ρ s (s.recvData id payload eos pad).1 := by
   unfold Streams.recvData
   ev_auto
 
-theorem recvReset_ev (s : Streams) (id : Nat) (reason : Reason) : Ev s (s.recvReset id reason).1 := by
+theorem recvReset_ev (s : Streams) (id : Nat) (reason : Reason) : EvB ρ s (s.recvReset id reason).1 := by
   unfold Streams.recvReset
   ev_auto
 
-theorem recvWindowUpdate_ev (s : Streams) (id inc : Nat) : Ev s (s.recvWindowUpdate id inc).1 := by
+theorem recvWindowUpdate_ev (s : Streams) (id inc : Nat) : EvB ρ s (s.recvWindowUpdate id inc).1 := by
   unfold Streams.recvWindowUpdate
   ev_auto
 
 theorem closeStream_ev (s : Streams) (id : Nat) (err : PErr) :
-    Ev s (s.transition id fun s => ((s.recvHandleError id err).sendHandleError id, ())).1 := by
+    EvB ρ s (s.transition id fun s => ((s.recvHandleError id err).sendHandleError id, ())).1 := by
   ev_auto
 
-theorem handleError_ev (s : Streams) (err : PErr) : Ev s (s.handleError err).1 := by
+theorem handleError_ev (s : Streams) (err : PErr) : EvB ρ s (s.handleError err).1 := by
   unfold Streams.handleError
   dsimp only
   generalize hS : s.storeForEach _ = S
-  have e : Ev s S := by
+  have e : EvB ρ s S := by
     rw [← hS]
     exact storeForEach_ev _ _ (fun s id => closeStream_ev s id err)
   exact .trans e (setMisc_ev _ _ _ _ _ _ ⟨rfl, rfl, rfl, rfl, rfl⟩)
 
 theorem recvGoAwayFrame_ev (s : Streams) (last : Nat) (reason : Reason) (debug : Bytes) :
-    Ev s (s.recvGoAwayFrame last reason debug).1 := by
+    EvB ρ s (s.recvGoAwayFrame last reason debug).1 := by
   unfold Streams.recvGoAwayFrame
   ev_auto
 
-theorem bufferPending_ev (fuel : Nat) (s : Streams) (w : Writer) : Ev s (Streams.bufferPending fuel s w).1 := by
+theorem bufferPending_ev (fuel : Nat) (s : Streams) (w : Writer) : EvB ρ s (Streams.bufferPending fuel s w).1 := by
   unfold Streams.bufferPending
   ev_auto
 
 theorem pollComplete_ev : ∀ (fuel : Nat) (s : Streams) (w : Writer) (io : Tio) (tag : String),
-    Ev s (Streams.pollComplete fuel s w io tag).1 := by
+    EvB ρ s (Streams.pollComplete fuel s w io tag).1 := by
   intro fuel
   induction fuel with
   | zero => intro s w io tag; exact panic_ev _ _
@@ -62,7 +63,7 @@ theorem pollComplete_ev : ∀ (fuel : Nat) (s : Streams) (w : Writer) (io : Tio)
     ev_auto_ih ih
 
 theorem pollSendPendingRefusal_ev : ∀ (fuel : Nat) (s : Streams) (w : Writer) (io : Tio) (tag : String),
-    Ev s (Streams.pollSendPendingRefusal fuel s w io tag).1 := by
+    EvB ρ s (Streams.pollSendPendingRefusal fuel s w io tag).1 := by
   intro fuel
   induction fuel with
   | zero => intro s w io tag; exact .refl _
@@ -71,108 +72,108 @@ theorem pollSendPendingRefusal_ev : ∀ (fuel : Nat) (s : Streams) (w : Writer) 
     unfold Streams.pollSendPendingRefusal
     ev_auto_ih ih
 
-theorem applyRemoteSettings_ev (s : Streams) (vals : List (Nat × Nat)) (b : Bool) : Ev s (s.applyRemoteSettings vals b).1 := by
+theorem applyRemoteSettings_ev (s : Streams) (vals : List (Nat × Nat)) (b : Bool) : EvB ρ s (s.applyRemoteSettings vals b).1 := by
   unfold Streams.applyRemoteSettings
   ev_auto
 
-theorem applyLocalSettingsFrame_ev (s : Streams) (vals : List (Nat × Nat)) : Ev s (s.applyLocalSettingsFrame vals).1 := by
+theorem applyLocalSettingsFrame_ev (s : Streams) (vals : List (Nat × Nat)) : EvB ρ s (s.applyLocalSettingsFrame vals).1 := by
   unfold Streams.applyLocalSettingsFrame
   ev_auto
 
-theorem refInc_ev (s : Streams) (id : Nat) : Ev s (s.refInc id) := by
+theorem refInc_ev (s : Streams) (id : Nat) : EvB ρ s (s.refInc id) := by
   unfold Streams.refInc
   ev_auto
 
-theorem cloneStreamRef_ev (s : Streams) (id : Nat) : Ev s (s.cloneStreamRef id) := by
+theorem cloneStreamRef_ev (s : Streams) (id : Nat) : EvB ρ s (s.cloneStreamRef id) := by
   unfold Streams.cloneStreamRef
   ev_auto
 
-theorem maybeCancel_ev (s : Streams) (id : Nat) : Ev s (s.maybeCancel id) := by
+theorem maybeCancel_ev (s : Streams) (id : Nat) : EvB ρ s (s.maybeCancel id) := by
   unfold Streams.maybeCancel
   ev_auto
 
-theorem pollPendingOpen_ev (s : Streams) (p : Option Nat) (tag : String) : Ev s (s.pollPendingOpen p tag).1 := by
+theorem pollPendingOpen_ev (s : Streams) (p : Option Nat) (tag : String) : EvB ρ s (s.pollPendingOpen p tag).1 := by
   unfold Streams.pollPendingOpen
   ev_auto
 
-theorem nextIncoming_ev (s : Streams) : Ev s s.nextIncoming.1 := by
+theorem nextIncoming_ev (s : Streams) : EvB ρ s s.nextIncoming.1 := by
   unfold Streams.nextIncoming
   ev_auto
 
-theorem refSendResponse_ev (s : Streams) (k : Nat) (f : List Hpack.Field) (eos : Bool) : Ev s (s.refSendResponse k f eos).1 := by
+theorem refSendResponse_ev (s : Streams) (k : Nat) (f : List Hpack.Field) (eos : Bool) : EvB ρ s (s.refSendResponse k f eos).1 := by
   unfold Streams.refSendResponse
   ev_auto
 
-theorem refSendInformationalHeaders_ev (s : Streams) (k : Nat) (f : List Hpack.Field) : Ev s (s.refSendInformationalHeaders k f).1 := by
+theorem refSendInformationalHeaders_ev (s : Streams) (k : Nat) (f : List Hpack.Field) : EvB ρ s (s.refSendInformationalHeaders k f).1 := by
   unfold Streams.refSendInformationalHeaders
   ev_auto
 
-theorem cloneHandle_ev (s : Streams) : Ev s s.cloneHandle := by
+theorem cloneHandle_ev (s : Streams) : EvB ρ s s.cloneHandle := by
   unfold Streams.cloneHandle
   ev_auto
 
-theorem dropHandle_ev (s : Streams) : Ev s s.dropHandle := by
+theorem dropHandle_ev (s : Streams) : EvB ρ s s.dropHandle := by
   unfold Streams.dropHandle
   ev_auto
 
-theorem refSendData_ev (s : Streams) (id len : Nat) (eos : Bool) : Ev s (s.refSendData id len eos).1 := by
+theorem refSendData_ev (s : Streams) (id len : Nat) (eos : Bool) : EvB ρ s (s.refSendData id len eos).1 := by
   unfold Streams.refSendData
   ev_auto
 
-theorem refSendTrailers_ev (s : Streams) (id : Nat) (f : List Hpack.Field) : Ev s (s.refSendTrailers id f).1 := by
+theorem refSendTrailers_ev (s : Streams) (id : Nat) (f : List Hpack.Field) : EvB ρ s (s.refSendTrailers id f).1 := by
   unfold Streams.refSendTrailers
   ev_auto
 
-theorem refSendReset_ev (s : Streams) (id : Nat) (r : Reason) : Ev s (s.refSendReset id r) := by
+theorem refSendReset_ev (s : Streams) (id : Nat) (r : Reason) : EvB ρ s (s.refSendReset id r) := by
   unfold Streams.refSendReset
   ev_auto
 
-theorem refReserveCapacity_ev (s : Streams) (id cap : Nat) : Ev s (s.refReserveCapacity id cap) := by
+theorem refReserveCapacity_ev (s : Streams) (id cap : Nat) : EvB ρ s (s.refReserveCapacity id cap) := by
   unfold Streams.refReserveCapacity
   ev_auto
 
-theorem refPollData_ev (s : Streams) (id : Nat) (tag : String) : Ev s (s.refPollData id tag).1 := by
+theorem refPollData_ev (s : Streams) (id : Nat) (tag : String) : EvB ρ s (s.refPollData id tag).1 := by
   unfold Streams.refPollData
   ev_auto
 
-theorem refReleaseCapacity_ev (s : Streams) (id cap : Nat) : Ev s (s.refReleaseCapacity id cap).1 := by
+theorem refReleaseCapacity_ev (s : Streams) (id cap : Nat) : EvB ρ s (s.refReleaseCapacity id cap).1 := by
   unfold Streams.refReleaseCapacity
   ev_auto
 
-theorem refClearRecvBuffer_ev (s : Streams) (id : Nat) : Ev s (s.refClearRecvBuffer id) := by
+theorem refClearRecvBuffer_ev (s : Streams) (id : Nat) : EvB ρ s (s.refClearRecvBuffer id) := by
   unfold Streams.refClearRecvBuffer
   ev_auto
 
 -- ===================================================================== drop_stream_ref
 
-theorem foldl_ev {α : Type} (f : Streams → α → Streams) (hf : ∀ s x, Ev s (f s x)) :
-    ∀ (l : List α) (s : Streams), Ev s (l.foldl f s) := by
+theorem foldl_ev {α : Type} (f : Streams → α → Streams) (hf : ∀ s x, EvB ρ s (f s x)) :
+    ∀ (l : List α) (s : Streams), EvB ρ s (l.foldl f s) := by
   intro l
   induction l with
   | nil => intro s; exact .refl _
   | cons a l ih => intro s; exact .trans (hf s a) (ih _)
 
 theorem dropPromise_ev (s : Streams) (promise : Nat) :
-    Ev s ((s.modStream promise fun st => { st with isPendingAccept := false }).transition promise fun s =>
+    EvB ρ s ((s.modStream promise fun st => { st with isPendingAccept := false }).transition promise fun s =>
             (if ((s.maybeCancel promise).stream promise).refCount == 0 then (s.maybeCancel promise).releaseClosedCapacity promise
              else s.maybeCancel promise, ())).1 := by
   refine .trans (.acceptFlag promise false) ?_
   ev_auto
 
-theorem dropStreamRef_ev (s : Streams) (id : Nat) : Ev s (s.dropStreamRef id) := by
+theorem dropStreamRef_ev (s : Streams) (id : Nat) : EvB ρ s (s.dropStreamRef id) := by
   unfold Streams.dropStreamRef
   dsimp only
   refine .trans ?_ (transition_ev _ _ _ ?_)
   · ev_auto
   · intro s5
     split
-    · show Ev s5 (List.foldl _ _ _)
-      have hf : ∀ (s : Streams) (p : Nat), Ev s ((s.modStream p fun st => { st with isPendingAccept := false }).transition p fun s =>
+    · show EvB ρ s5 (List.foldl _ _ _)
+      have hf : ∀ (s : Streams) (p : Nat), EvB ρ s ((s.modStream p fun st => { st with isPendingAccept := false }).transition p fun s =>
             (if ((s.maybeCancel p).stream p).refCount == 0 then (s.maybeCancel p).releaseClosedCapacity p
              else s.maybeCancel p, ())).1 :=
         fun s p => dropPromise_ev s p
-      refine Ev.trans ?_ (foldl_ev _ hf _ _)
-      refine Ev.trans ?_ (modStream_ev _ _ _ ?_)
+      refine EvB.trans ?_ (foldl_ev _ hf _ _)
+      refine EvB.trans ?_ (modStream_ev _ _ _ ?_)
       · exact .trans (maybeCancel_ev _ _) (releaseClosedCapacity_ev _ _)
       · intro _ _; same_tac
     · exact maybeCancel_ev _ _
@@ -210,12 +211,12 @@ theorem recvOpen_remote {s s1 : Streams} {id : Nat} {pp : Bool} (h : s.recvOpen 
 theorem fresh_new (id a b : Nat) : Fresh (Stream.new id a b) :=
   ⟨rfl, fun q => by cases q <;> rfl, rfl, rfl⟩
 
-theorem recvHeaders_ev (s : Streams) (h : HeadersIn) : Ev s (s.recvHeaders h).1 := by
+theorem recvHeaders_ev (s : Streams) (h : HeadersIn) : EvB true s (s.recvHeaders h).1 := by
   unfold Streams.recvHeaders
   extract_lets id entry f431
   split
   · exact .refl _
-  · have eE : Ev s entry.1 := by
+  · have eE : EvB true s entry.1 := by
       simp only [entry]
       split
       · exact .refl _
